@@ -1,6 +1,6 @@
 //verif:pkg .
 //verif:use servers_mcp
-//verif:bound stateful: pre-state = 0..2 live sessions built by real initialize exchanges (each handshake completed or not, each with or without an open GET stream) and 0..1 deleted session; then 1 step (quick) / 2 steps (thorough) over verb {POST, GET, DELETE, PUT} x session header {none, live A, live B, deleted, arbitrary never-issued string <= 34 chars} x body {initialize, ping, initialized notification, other notification, response object, non-JSON, object without id and method}; stateless and session-disabled configurations with GET/POST-SSE on or off; after every step the reported live set equals the model's
+//verif:bound stateful: pre-state = 0..2 live sessions built by real initialize exchanges (each handshake completed or not, each with or without an open GET stream) and 0..1 deleted session; then 1 step (thorough: also with POST answers as SSE, and 2 steps from the pre-states with at most one live session) over verb {POST, GET, DELETE, PUT} x session header {none, live A, live B, deleted, arbitrary never-issued string <= 34 chars} x body {initialize, ping, initialized notification, other notification, response object, non-JSON, object without id and method}; stateless and session-disabled configurations with GET/POST-SSE on or off; after every step the reported live set equals the model's
 //verif:bound id generator: 16 symbolic CSPRNG bytes through the real hex encoder
 //verif:assume the one-minute sweeper / one-hour expiry is not exercised (tickers never fire); more than two live sessions and longer histories are covered only by the inductive reading of the one-step check
 package mcp
@@ -186,8 +186,14 @@ func c04Step(srv *Server, m *c04Model, ids []string) {
 func H_C04_stateful() {
 	vRandConcrete(true)
 	postSSE := false
+	twoStep := false
 	if vTier() == 1 {
-		postSSE = vBool("postSSE")
+		// thorough: either one step with POST answers as SSE as well, or two steps from the pre-states with
+		// at most one live session (the second session and the deleted one can arise from the first step)
+		twoStep = vBool("twoStep")
+		if !twoStep {
+			postSSE = vBool("postSSE")
+		}
 	}
 	srv := NewServer("srv", "1.0", WithPostSSEEnabled(postSSE))
 	m := &c04Model{live: map[string]bool{}, stream: map[string]*c04Stream{}, life: map[string]int{}, deleted: map[string]bool{}}
@@ -201,7 +207,11 @@ func H_C04_stateful() {
 		m.life[id] = 1
 		return id
 	}
-	nLive := vChoice("liveSessions", 3)
+	maxLive := 3
+	if twoStep {
+		maxLive = 2
+	}
+	nLive := vChoice("liveSessions", maxLive)
 	for i := 0; i < nLive; i++ {
 		ids[i] = mk()
 		if vBool("handshakeDone") {
@@ -229,7 +239,7 @@ func H_C04_stateful() {
 	got, err := srv.GetActiveSessions()
 	vAssert("pre-live-set", vAnd(err == nil, c04SameSet(got, m.live)))
 	steps := 1
-	if vTier() == 1 {
+	if twoStep {
 		steps = 2
 	}
 	for s := 0; s < steps; s++ {
